@@ -44,8 +44,6 @@ def enumerate_cases(tier, seed):
     progs = distspace.programs(tier, seed)
     structured = [(f, p) for f, p in progs if not f.startswith("R") and not f.startswith("stored")]
     skel = [{"fam": f, "prog": p, "pairs": False} for f, p in progs if f.startswith("R")]
-    # forwarded receives are a separate known finding of C09 (the verifier rejects them): keep them out of the base set
-    skel = [c for c in skel if not any(o.get("forward") and not o["use_input"] for o in c["prog"]["ops"])]
     cases = runner.slice_by_seed(skel, seed, 8 if tier == "quick" else 1)
     # "a correct computation is never rejected": every base program of the space, unfaulted
     chosen = {runner.stable_hash(c) for c in cases}
